@@ -626,6 +626,307 @@ Proof.
   rewrite E in H. exact H.
 Qed.
 
+(* values whose to_mysql_bin cannot hit unreachable!(): no NULL below a Some *)
+Fixpoint value_tame (v : value) : Prop :=
+  match v with
+  | VSome v' => is_null v' = false /\ value_tame v'
+  | VRef v' => value_tame v'
+  | _ => True
+  end.
+Fixpoint tame_q (p : qprog) : Prop :=
+  match p with
+  | QStart _ k => tame_r k
+  | QCompleteOne _ _ k => tame_q k
+  | QError code _ => errtab code <> None
+  | _ => True
+  end
+with tame_r (p : rprog) : Prop :=
+  match p with
+  | RWriteCol v _ k => value_tame v /\ tame_r k
+  | REndRow _ k => tame_r k
+  | RWriteRow vs _ k => Forall value_tame vs /\ tame_r k
+  | RFinishOne k => tame_q k
+  | RFinishError code _ => errtab code <> None
+  | _ => True
+  end.
+Definition scripts_tame (sc : scripts) : Prop :=
+  errtab 1045 <> None /\
+  Forall (fun x => tame_q (fst x)) (sc_q sc) /\
+  Forall (fun x => tame_q (x_prog x) /\ Forall (fun k => k = KNone) (x_convs x)) (sc_x sc) /\
+  Forall (fun x => match fst x with PError code _ => errtab code <> None | _ => True end) (sc_p sc) /\
+  Forall (fun x => match fst x with IError code _ => errtab code <> None | _ => True end) (sc_i sc).
+
+(* ---- helpers for run_on_panics_tame ---- *)
+
+(* the client-reachable panics *)
+Definition cp (p : site) : Prop := In p client_sites.
+Ltac cpf := unfold cp, client_sites; cbn [In]; tauto.
+Lemma cp_FragSeq : cp PFragSeq. Proof. cpf. Qed.
+
+Lemma myc_bin_nonnull Q m c : is_null (VMyc m) = false -> RP Q (myc_bin m c).
+Proof.
+  intro H. destruct m; [cbn [is_null] in H; discriminate H|..];
+    unfold myc_bin; cbv beta iota zeta; try np_fin; brk; np_fin.
+Qed.
+Lemma to_bin_tame Q v c : value_tame v -> is_null v = false -> RP Q (to_bin v c).
+Proof.
+  induction v; cbn [value_tame is_null to_bin]; intros Ht Hn; try np_fin.
+  - discriminate Hn.
+  - apply IHv; tauto.
+  - apply IHv; assumption.
+  - apply myc_bin_nonnull. exact Hn.
+Qed.
+Lemma to_text_cp v : RP cp (to_text v).
+Proof. apply to_text_np. Qed.
+Lemma params_next_cp p : RP cp (params_next fpext p).
+Proof. apply params_next_np; cpf. Qed.
+Lemma convert_tame Q convs v : Forall (fun k => k = KNone) convs ->
+  RP Q (convert fptrunc (match convs with [] => KNone | k :: _ => k end) v).
+Proof. intro H. destruct convs; [exact I | inversion H; subst; exact I]. Qed.
+Lemma Forall_tl {A} (Q : A -> Prop) l : Forall Q l -> Forall Q (tl l).
+Proof. intro H. destruct l; [exact H | inversion H; assumption]. Qed.
+
+#[local] Hint Resolve to_text_cp params_next_cp convert_tame to_bin_tame : tnp.
+#[local] Hint Resolve W_ret W_fail W_log_call W_log_api W_set_seq W_park W_t_write W_t_flush
+  W_end_packet W_write_all W_flush W_send W_send_all W_finalize W_drop_q W_end_row
+  W_finish_inner W_drop_rw W_lapi W_ret_tag Forall_tl : tdb.
+
+Ltac tmatch :=
+  match goal with
+  | |- W cp (match ?x with _ => _ end) =>
+      lazymatch type of x with
+      | res _ =>
+          let H := fresh "HR" in
+          assert (H : RP cp x) by auto with tnp; revert H; destruct x; intro H; cbn [RP] in H
+      | _ => first [destruct x eqn:? | destruct x]
+      end
+  end.
+Ltac tstep :=
+  first
+    [ assumption
+    | solve [auto 2 with tdb]
+    | lazymatch goal with |- W cp (panic _) => apply W_panic; assumption end
+    | lazymatch goal with |- W cp (attempt _) => apply W_attempt end
+    | lazymatch goal with |- W cp (park_on_err _) => apply W_park_on_err end
+    | lazymatch goal with |- W cp (bind _ _) => apply W_bind; [| intro; cbv beta] end
+    | match goal with H : context [W cp _] |- _ => solve [apply H; auto 2 with tdb] end
+    | tmatch
+    | progress cbv beta zeta ].
+Ltac tauto_w := repeat tstep.
+
+Lemma W_write_err_t code msg : errtab code <> None -> W cp (write_err errtab code msg).
+Proof. intro H. unfold write_err. destruct (errtab code) as [[c st]|]; [apply W_send | congruence]. Qed.
+Lemma W_write_col_t w v : value_tame v -> W cp (write_col w v).
+Proof. intro H. unfold write_col. tauto_w. Qed.
+#[local] Hint Resolve W_write_err_t W_write_col_t : tdb.
+Lemma W_write_cols_t vs : forall w, Forall value_tame vs -> W cp (write_cols w vs).
+Proof.
+  induction vs as [|v r IH]; intros w H; cbn [write_cols]; [apply W_ret|].
+  inversion H; subst. tauto_w.
+Qed.
+#[local] Hint Resolve W_write_cols_t : tdb.
+Lemma W_write_row_t w vs : Forall value_tame vs -> W cp (write_row w vs).
+Proof. intro H. unfold write_row. tauto_w. Qed.
+#[local] Hint Resolve W_write_row_t : tdb.
+
+Lemma W_run_qr_t quiet :
+  (forall p q, tame_q p -> W cp (run_q errtab quiet q p)) /\
+  (forall p w, tame_r p -> W cp (run_r errtab quiet w p)).
+Proof.
+  apply qr_mutind; intros; cbn [run_q run_r]; cbn [tame_q tame_r] in *;
+    repeat match goal with H : _ /\ _ |- _ => destruct H end; tauto_w.
+Qed.
+Lemma W_run_q_t quiet q p : tame_q p -> W cp (run_q errtab quiet q p).
+Proof. apply W_run_qr_t. Qed.
+#[local] Hint Resolve W_run_q_t : tdb.
+
+Lemma W_pull_params_t fuel : forall n convs p, Forall (fun k => k = KNone) convs ->
+  W cp (pull_params fpext fptrunc fuel n convs p).
+Proof.
+  induction fuel as [|f IH]; intros n convs p Hc; cbn [pull_params]; tauto_w.
+Qed.
+#[local] Hint Resolve W_pull_params_t : tdb.
+
+(* popping a script keeps the queues tame *)
+Lemma pop_q_tame sc : scripts_tame sc ->
+  tame_q (fst (fst (pop_q sc))) /\ scripts_tame (snd (pop_q sc)).
+Proof.
+  unfold scripts_tame, pop_q. intros (H0 & Hq & Hx & Hp & Hi).
+  destruct (sc_q sc) as [|x r] eqn:E; cbn [fst snd tame_q sc_q sc_p sc_x sc_i].
+  - rewrite E. repeat split; auto.
+  - inversion Hq; subst. repeat split; assumption.
+Qed.
+Lemma pop_p_tame sc : scripts_tame sc ->
+  match fst (fst (pop_p sc)) with PError code _ => errtab code <> None | _ => True end /\
+  scripts_tame (snd (pop_p sc)).
+Proof.
+  unfold scripts_tame, pop_p. intros (H0 & Hq & Hx & Hp & Hi).
+  destruct (sc_p sc) as [|x r] eqn:E; cbn [fst snd sc_q sc_p sc_x sc_i].
+  - rewrite E. repeat split; auto.
+  - inversion Hp; subst. repeat split; assumption.
+Qed.
+Lemma pop_x_tame sc : scripts_tame sc ->
+  tame_q (x_prog (fst (pop_x sc))) /\ Forall (fun k => k = KNone) (x_convs (fst (pop_x sc))) /\
+  scripts_tame (snd (pop_x sc)).
+Proof.
+  unfold scripts_tame, pop_x. intros (H0 & Hq & Hx & Hp & Hi).
+  destruct (sc_x sc) as [|x r] eqn:E; cbn [fst snd tame_q x_prog x_convs sc_q sc_p sc_x sc_i].
+  - rewrite E. repeat split; auto.
+  - inversion Hx as [|? ? [Ha Hb] Hr]; subst. repeat split; assumption.
+Qed.
+Lemma pop_i_tame sc : scripts_tame sc ->
+  match fst (fst (pop_i sc)) with IError code _ => errtab code <> None | _ => True end /\
+  scripts_tame (snd (pop_i sc)).
+Proof.
+  unfold scripts_tame, pop_i. intros (H0 & Hq & Hx & Hp & Hi).
+  destruct (sc_i sc) as [|x r] eqn:E; cbn [fst snd sc_q sc_p sc_x sc_i].
+  - rewrite E. repeat split; auto.
+  - inversion Hi; subst. repeat split; assumption.
+Qed.
+
+(* callbacks under tame scripts *)
+Lemma W_on_query_t q st sc : scripts_tame sc -> W cp (on_query errtab q (st, sc)).
+Proof.
+  intro H. unfold on_query. destruct (pop_q_tame sc H) as [H1 _].
+  destruct (pop_q sc) as [[prog tag] sc']. cbn [fst] in H1. tauto_w.
+Qed.
+Lemma W_on_init_t schema st sc : scripts_tame sc -> W cp (on_init errtab schema (st, sc)).
+Proof.
+  intro H. unfold on_init. destruct (pop_i_tame sc H) as [H1 _].
+  destruct (pop_i sc) as [[prog tag] sc']. cbn [fst] in H1.
+  apply W_bind; [apply W_log_call | intro].
+  apply W_bind; [| intro; tauto_w].
+  destruct prog; tauto_w; apply W_api_ret; tauto_w.
+Qed.
+Lemma W_on_prepare_t q st sc : scripts_tame sc -> W cp (on_prepare errtab q (st, sc)).
+Proof.
+  intro H. unfold on_prepare. destruct (pop_p_tame sc H) as [H1 _].
+  destruct (pop_p sc) as [[prog tag] sc']. cbn [fst] in H1.
+  apply W_bind; [apply W_log_call | intro].
+  destruct prog; tauto_w; apply W_api_ret; tauto_w.
+Qed.
+Lemma W_on_execute_t id sd params sc : scripts_tame sc ->
+  W cp (on_execute fpext fptrunc errtab id sd params sc).
+Proof.
+  intro H. unfold on_execute. destruct (pop_x_tame sc H) as (H1 & H2 & _).
+  destruct (pop_x sc) as [x sc']. cbn [fst] in H1, H2. tauto_w.
+Qed.
+#[local] Hint Resolve W_on_query_t W_on_init_t W_on_prepare_t W_on_execute_t : tdb.
+
+Lemma W_handle_t cmd st sc : scripts_tame sc -> W cp (handle fpext fptrunc errtab cmd (st, sc)).
+Proof.
+  intro H. unfold handle. destruct cmd; try solve [tauto_w].
+  destruct (_ || _); [|tauto_w].
+  apply W_bind; [|intro; apply W_ret].
+  destruct (bytes_eqb _ _); apply W_run_q_t; cbn [tame_q tame_r].
+  - split; [constructor; [exact I | constructor] | exact I].
+  - exact I.
+Qed.
+
+(* the value returned on success *)
+Definition Ret {A} (Q : A -> Prop) (m : M A) : Prop := forall s a, fst (m s) = ROk a -> Q a.
+Lemma Ret_ret {A} (Q : A -> Prop) a : Q a -> Ret Q (ret a).
+Proof. intros H s b E. cbn in E. injection E as <-. exact H. Qed.
+Lemma Ret_fail {A} (Q : A -> Prop) e : Ret Q (fail e).
+Proof. intros s b E. discriminate E. Qed.
+Lemma Ret_bind {A B} (Q1 : A -> Prop) (Q : B -> Prop) (m : M A) (f : A -> M B) :
+  Ret Q1 m -> (forall a, Q1 a -> Ret Q (f a)) -> Ret Q (bind m f).
+Proof.
+  intros Hm Hf s b. unfold bind. specialize (Hm s).
+  destruct (m s) as [[a|e|p] s']; cbn [fst] in *; try discriminate.
+  apply Hf, Hm. reflexivity.
+Qed.
+Lemma Ret_bind_any {A B} (Q : B -> Prop) (m : M A) (f : A -> M B) :
+  (forall a, Ret Q (f a)) -> Ret Q (bind m f).
+Proof. intro Hf. apply (Ret_bind (fun _ => True)); [intros s a _; exact I | intros a _; apply Hf]. Qed.
+
+Ltac rstep :=
+  first
+    [ lazymatch goal with |- Ret _ (ret _) => apply Ret_ret; cbn [snd]; assumption end
+    | lazymatch goal with |- Ret _ (fail _) => apply Ret_fail end
+    | solve [auto 2 with rdb]
+    | lazymatch goal with |- Ret _ (bind _ _) => apply Ret_bind_any; intro; cbv beta end
+    | match goal with |- Ret _ (match ?x with _ => _ end) => destruct x end
+    | progress cbv beta zeta ].
+Ltac rauto := repeat rstep.
+
+Definition ss_tame (r : ss) : Prop := scripts_tame (snd r).
+Lemma Ret_on_query q st sc : scripts_tame sc -> Ret ss_tame (on_query errtab q (st, sc)).
+Proof.
+  intro H. unfold on_query, ss_tame. destruct (pop_q_tame sc H) as [_ H2].
+  destruct (pop_q sc) as [[prog tag] sc']. cbn [snd] in H2. rauto.
+Qed.
+Lemma Ret_on_init schema st sc : scripts_tame sc -> Ret ss_tame (on_init errtab schema (st, sc)).
+Proof.
+  intro H. unfold on_init, ss_tame. destruct (pop_i_tame sc H) as [_ H2].
+  destruct (pop_i sc) as [[prog tag] sc']. cbn [snd] in H2. rauto.
+Qed.
+Lemma Ret_on_prepare q st sc : scripts_tame sc -> Ret ss_tame (on_prepare errtab q (st, sc)).
+Proof.
+  intro H. unfold on_prepare, ss_tame. destruct (pop_p_tame sc H) as [_ H2].
+  destruct (pop_p sc) as [[prog tag] sc']. cbn [snd] in H2. rauto.
+Qed.
+Lemma Ret_on_execute id sd params sc : scripts_tame sc ->
+  Ret (fun x => scripts_tame (snd x)) (on_execute fpext fptrunc errtab id sd params sc).
+Proof.
+  intro H. unfold on_execute. destruct (pop_x_tame sc H) as (_ & _ & H2).
+  destruct (pop_x sc) as [x sc']. cbn [snd] in H2. rauto.
+Qed.
+#[local] Hint Resolve Ret_on_query Ret_on_init Ret_on_prepare : rdb.
+Lemma Ret_handle cmd st sc : scripts_tame sc ->
+  Ret ss_tame (handle fpext fptrunc errtab cmd (st, sc)).
+Proof.
+  intro H. unfold handle. destruct cmd; try solve [unfold ss_tame in *; rauto]; try solve [rauto].
+  destruct (lookup _ _); [|apply Ret_fail].
+  apply (Ret_bind (fun x => scripts_tame (snd x))); [apply Ret_on_execute; exact H|].
+  intros [sd' sc'] Hx. apply Ret_ret. exact Hx.
+Qed.
+
+Lemma SF_bind_W_ret n {A B} (Q : A -> Prop) (m : M A) (f : A -> M B) :
+  W cp m -> Ret Q m -> (forall a, Q a -> SF cp n (f a)) -> SF cp n (bind m f).
+Proof.
+  intros Hm Hr Hf s Hs. unfold bind. destruct (Hm s) as [H1 H2]. specialize (Hr s).
+  destruct (m s) as [[a|e|p] s']; cbn [fst snd] in *; [|exact I|exact H1].
+  apply Hf; [apply Hr; reflexivity | lia].
+Qed.
+
+Lemma run_f_safe_t fuel : forall st sc n, scripts_tame sc -> (n < fuel)%nat ->
+  SF cp n (run_f fpext fptrunc errtab fuel (st, sc)).
+Proof.
+  induction fuel as [|f IH]; intros st sc n Ht Hlt; [lia|].
+  cbn [run_f]. apply (SF_bind_next cp cp_FragSeq).
+  - apply SF_W, W_ret.
+  - intros [q pkt] m Hm. apply SF_bind_W; [apply W_set_seq | intros _].
+    destruct (parse pkt) as [cmd|]; [|apply SF_W, W_fail].
+    assert (Hgen : SF cp m (s' <- handle fpext fptrunc errtab cmd (st, sc) ;;
+                            flush ;;; run_f fpext fptrunc errtab f s')).
+    { apply (SF_bind_W_ret m ss_tame);
+        [apply W_handle_t; exact Ht | apply Ret_handle; exact Ht | intros [st' sc'] Hr].
+      apply SF_bind_W; [apply W_flush | intros _]. apply IH; [exact Hr | lia]. }
+    destruct cmd; try exact Hgen. apply SF_W, W_ret.
+Qed.
+
+Lemma NI_init_t cfg : errtab 1045 <> None -> NI cp (init errtab cfg).
+Proof.
+  intro H. unfold init.
+  apply NI_bind; [apply W_NI, W_write_all | intros _].
+  apply NI_bind; [apply W_NI, W_flush | intros _].
+  apply NI_bind; [apply (NI_next cp cp_FragSeq) | intros r].
+  apply W_NI. destruct (errtab 1045) as [[c state]|]; [|congruence]. tauto_w.
+Qed.
+
+Theorem run_on_panics_tame cfg sc s p :
+  scripts_tame sc ->
+  fst (run_on fpext fptrunc errtab cfg sc s) = RPanic p -> In p client_sites.
+Proof.
+  intros Ht E.
+  assert (H : RP cp (fst (run_on fpext fptrunc errtab cfg sc s))).
+  { unfold run_on, bind. destruct (NI_init_t cfg (proj1 Ht) s) as [H1 H2].
+    destruct (init errtab cfg s) as [[a|e|p'] s']; cbn [fst snd] in *; [|exact I|exact H1].
+    apply (run_f_safe_t (S (ilen s)) [] sc (ilen s') Ht); lia. }
+  rewrite E in H. exact H.
+Qed.
+
 End WithOracles.
 
 Print Assumptions run_on_total.
@@ -638,3 +939,4 @@ Print Assumptions next_panics.
 Print Assumptions run_q_total.
 Print Assumptions handle_total.
 Print Assumptions run_total.
+Print Assumptions run_on_panics_tame.
